@@ -817,4 +817,87 @@ Section Inv.
         * intros; apply Hwf; right; assumption.
         * intros td2 H2. apply Hage. right. exact H2.
   Qed.
+
+  (* what may come between the chunks of the stream started by [m0] once [j] of them were
+     delivered: chunks of other snapshots (whatever happens to them), foreign chunks, chunks
+     of this snapshot that are not chunk 0 and not the next expected chunk of this sender
+     (duplicates, gaps, out of order, other senders), ticks, removal of other replicas *)
+  Definition noise (m0 : cmeta) (j : N) (o : op D) : Prop :=
+    match o with
+    | OAdd c => key_of (fst c) <> key_of m0 \/
+                c_did (fst c) <> my_did \/ c_binver (fst c) <> transport_bin_version \/
+                (c_id (fst c) <> 0 /\ (c_id (fst c) <> j \/ c_from (fst c) <> c_from m0))
+    | OTick => True
+    | ORemoved s r => (s, r) <> node_of m0
+    | OClose => False
+    end.
+
+  Inductive delivers (m0 : cmeta) : N -> list chunk -> list (op D) -> Prop :=
+  | dl_done : forall j, delivers m0 j [] []
+  | dl_chunk : forall j c r ops, delivers m0 (j + 1) r ops -> delivers m0 j (c :: r) (OAdd c :: ops)
+  | dl_noise : forall j c r o ops, noise m0 j o -> delivers m0 j (c :: r) ops -> delivers m0 j (c :: r) (o :: ops).
+
+  Definition mid2 (st : state) (m0 : cmeta) (v : V) (fi : list sfile) (files : dir D) (n tk0 : N) : Prop :=
+    trk st (key_of m0) = Some (mkTracked m0 v fi tk0 n) /\
+    tmp st (tkey_of m0) = Some files /\
+    fin st (key_of m0) = None /\
+    is_removed st (node_of m0) = false.
+
+  Lemma mid2_transfer : forall (st st' : state) m0 v fi files n tk0,
+      same_at D V (key_of m0) st st' -> s_removed st' = s_removed st ->
+      mid2 st m0 v fi files n tk0 -> mid2 st' m0 v fi files n tk0.
+  Proof.
+    intros st st' m0 v fi files n tk0 [S1 [S2 S3]] SR [A [B [C E]]].
+    split; [rewrite S1; exact A|]. split; [rewrite S2; [exact B|apply tkey_key_of]|].
+    split; [rewrite S3; exact C|]. unfold is_removed in *. rewrite SR. exact E.
+  Qed.
+
+  Lemma noise_step :
+    forall h (st s1 : state) m0 v fi files j tk0 o b,
+      inv h st -> mid2 st m0 v fi files j tk0 -> j <> 0 -> tk0 <= s_tick st ->
+      noise m0 j o ->
+      (o = OTick -> s_tick st + 1 < tk0 + timeout) ->
+      stepM st o = Done s1 b ->
+      mid2 s1 m0 v fi files j tk0 /\
+      s_tick s1 = s_tick st + (match o with OTick => 1 | _ => 0 end).
+  Proof.
+    intros h st s1 m0 v fi files j tk0 o b Hi Hm Hj Htk Hn Hb H.
+    pose proof (inv_wf _ _ Hi) as WF.
+    destruct o as [[m d]| |s r|]; simpl in H, Hn.
+    - (* another chunk *)
+      destruct (key_eqb (key_of m) (key_of m0)) eqn:E.
+      + (* same snapshot: it is ignored without effect *)
+        apply key_eqb_eq in E.
+        assert (Ig : ignorable D V vinit vadd my_did max_slots st (m, d)).
+        { destruct Hn as [Hn|[Hn|[Hn|[Hid Hn]]]]; [contradiction|left; left; exact Hn|left; right; exact Hn|].
+          right. left. simpl. split; [exact Hid|].
+          intros [td [L [Nx Fr]]]. rewrite E in L. destruct Hm as [A _]. rewrite A in L.
+          injection L as L; subst td. simpl in Nx, Fr. destruct Hn as [Hn|Hn]; congruence. }
+        rewrite (ignorable_no_effect_proved D dapp V vinit vadd vfinal true true my_did max_slots eq_refl st (m, d) Ig) in H.
+        injection H as H1 H2; subst. split; [exact Hm|lia].
+      + apply key_eqb_neq in E.
+        destruct (add_frame D dapp V vinit vadd vfinal true true my_did max_slots st (m, d) s1 b (key_of m0) WF H) as [_ G].
+        destruct (add_shape (fun _ => True) (fun _ _ _ _ => I) (fun _ _ _ => I) st (m, d) s1 b H I) as [_ [SR ST]].
+        split; [|rewrite ST; lia].
+        eapply mid2_transfer; [apply G; simpl; congruence|exact SR|exact Hm].
+    - (* a tick *)
+      injection H as H1 H2; subst s1 b. specialize (Hb eq_refl). unfold tick.
+      set (st1 := mkState (s_tick st + 1) (s_tracked st) (s_temps st) (s_finals st) (s_removed st) (s_out st)).
+      assert (M1 : mid2 st1 m0 v fi files j tk0) by exact Hm.
+      destruct (_ =? 0).
+      + unfold gc. destruct (gc_list_same_at (s_tracked st1) st1 (key_of m0)) as [S R].
+        * intros k1 td1 Hin. apply WF. simpl in Hin. apply nodup_lookup; [exact (proj2 Hi)|exact Hin].
+        * intros td1 Hin. simpl in Hin.
+          pose proof (nodup_lookup _ _ _ _ (proj2 Hi) Hin) as L.
+          destruct Hm as [A _]. rewrite A in L. injection L as L; subst td1. unfold st1. cbn [s_tick t_tick]. lia.
+        * split; [eapply mid2_transfer; eauto|].
+          rewrite gc_list_tick. reflexivity.
+      + split; [exact M1|reflexivity].
+    - (* another replica is removed *)
+      injection H as H1 H2; subst s1 b. split; [|simpl; lia].
+      destruct Hm as [A [B [C E]]]. split; [exact A|]. split; [exact B|]. split; [exact C|].
+      unfold is_removed, mark_removed in *. simpl.
+      rewrite alookup_aset_other; [exact E|exact node_eqb_eq|]. intro X. apply Hn. symmetry. exact X.
+    - destruct Hn.
+  Qed.
 End Inv.
